@@ -120,6 +120,23 @@ Proof.
       intros H. inversion H. subst. reflexivity.
 Qed.
 
+Lemma into_typed_class id b :
+  fst (into_typed id b) = 0 \/ fst (into_typed id b) = 1 \/ fst (into_typed id b) = 99.
+Proof.
+  unfold into_typed. destruct (acc_pkt KRaw id 0 b) as [a|e|s]; [|right; right; reflexivity..].
+  destruct a as [x|l|]; [right; right; reflexivity| |right; right; reflexivity].
+  destruct l as [|c t]; [right; right; reflexivity|].
+  destruct c as [|p]; [left; reflexivity|].
+  destruct p; try (right; right; reflexivity).
+  destruct t as [|x t]; [right; right; reflexivity|]. destruct t; [right; left; reflexivity|right; right; reflexivity].
+Qed.
+
+Lemma run_ctor_big k fam arg b : 8 <= fam -> run_ctor k fam arg b = (99, []).
+Proof.
+  intros H. unfold run_ctor.
+  destruct fam as [|[[[p|p|]|[p|p|]|]|[[p|p|]|[p|p|]|]|]]; try (exfalso; lia); reflexivity.
+Qed.
+
 Definition req_opt (r : res N) : option N := match r with Ok n => Some n | _ => None end.
 
 (** Whatever a constructor family reports in the model -- acceptance or refusal -- satisfies the
@@ -153,23 +170,20 @@ Proof.
     destruct e; cbn [enc_err ctor_obs_ok]; destruct f as [|p]; try reflexivity;
       destruct (req_opt (required_size k b)); try reflexivity;
       do 3 (try destruct p as [p|p|]; try reflexivity); congruence. }
-  unfold run_ctor in *.
-  destruct fam as [|p]; [|destruct p as [p|p|]; [destruct p as [p|p|]|destruct p as [p|p|]|]];
-    try (destruct p; cbn in Hnp; congruence); try (cbn in Hnp; congruence).
+  destruct (N.le_gt_cases 8 fam) as [Hbig|Hsmall].
+  { exfalso. apply Hnp. rewrite (run_ctor_big k fam arg b Hbig). reflexivity. }
+  assert (Hc : fam = 7 \/ fam = 5 \/ fam = 3 \/ fam = 6 \/ fam = 2 \/ fam = 4 \/ fam = 1 \/ fam = 0) by lia.
+  destruct Hc as [->|[->|[->|[->|[->|[->|[->| ->]]]]]]]; unfold run_ctor in *; cbv beta iota in Hnp |- *.
   - (* 7 *) destruct (SB k Hnp) as [[Hn ->]|[e ->]]; [|destruct (EE e 7 arg) as [H|H]; [exact H|discriminate]].
-    rewrite Hn. cbn [req_opt ctor_obs_ok owned_exact]. rewrite !N.eqb_refl. reflexivity.
+    rewrite Hn. cbn [req_opt ctor_obs_ok]. unfold owned_exact. rewrite !N.eqb_refl. reflexivity.
   - (* 5 *) rewrite (Hk (or_introl eq_refl)) in *.
     destruct (try_from_boxed KRaw b) as [v|e|s] eqn:T; cbn [enc_ctor] in *.
     + destruct (try_from_boxed_exact KRaw b v T) as [-> Hn]. rewrite Hn. cbn [req_opt].
-      destruct (into_typed 4 b) as [c l] eqn:I. destruct c as [|c]; [cbn; reflexivity|].
-      destruct c; try (cbn in Hnp; unfold into_typed in I;
-        repeat match type of I with (match ?x with _ => _ end) = _ => destruct x; try discriminate I end; fail).
-      * exfalso. unfold into_typed in I.
-        repeat match type of I with (match ?x with _ => _ end) = _ => destruct x; try discriminate I end.
-      * exfalso. unfold into_typed in I.
-        repeat match type of I with (match ?x with _ => _ end) = _ => destruct x; try discriminate I end.
-      * rewrite (into_typed_exact 4 b l (or_introl eq_refl) Hn I).
-        cbn [ctor_obs_ok owned_exact]. rewrite !N.eqb_refl. reflexivity.
+      destruct (into_typed 4 b) as [c l] eqn:I.
+      pose proof (into_typed_class 4 b) as Hc. rewrite I in Hc. cbn [fst] in Hc, Hnp.
+      destruct Hc as [->|[->| ->]]; [reflexivity| |exfalso; apply Hnp; reflexivity].
+      rewrite (into_typed_exact 4 b l (or_introl eq_refl) Hn I).
+        cbn [ctor_obs_ok]. unfold owned_exact. rewrite !N.eqb_refl. reflexivity.
     + destruct (EE e 5 arg) as [H|H]; [exact H|discriminate].
     + exfalso. apply Hnp. reflexivity.
   - (* 3 *) destruct (S01 _ Hnp) as [(n & Hn & L & -> & Hv & Hr)|(e & He & ->)].
@@ -178,19 +192,15 @@ Proof.
   - (* 6 *) rewrite (Hk (or_intror eq_refl)) in *.
     destruct (try_from_boxed KRaw b) as [v|e|s] eqn:T; cbn [enc_ctor] in *.
     + destruct (try_from_boxed_exact KRaw b v T) as [-> Hn]. rewrite Hn. cbn [req_opt].
-      destruct (into_typed 5 b) as [c l] eqn:I. destruct c as [|c]; [cbn; reflexivity|].
-      destruct c; try (cbn in Hnp; unfold into_typed in I;
-        repeat match type of I with (match ?x with _ => _ end) = _ => destruct x; try discriminate I end; fail).
-      * exfalso. unfold into_typed in I.
-        repeat match type of I with (match ?x with _ => _ end) = _ => destruct x; try discriminate I end.
-      * exfalso. unfold into_typed in I.
-        repeat match type of I with (match ?x with _ => _ end) = _ => destruct x; try discriminate I end.
-      * rewrite (into_typed_exact 5 b l (or_intror eq_refl) Hn I).
-        cbn [ctor_obs_ok owned_exact]. rewrite !N.eqb_refl. reflexivity.
+      destruct (into_typed 5 b) as [c l] eqn:I.
+      pose proof (into_typed_class 5 b) as Hc. rewrite I in Hc. cbn [fst] in Hc, Hnp.
+      destruct Hc as [->|[->| ->]]; [reflexivity| |exfalso; apply Hnp; reflexivity].
+      rewrite (into_typed_exact 5 b l (or_intror eq_refl) Hn I).
+        cbn [ctor_obs_ok]. unfold owned_exact. rewrite !N.eqb_refl. reflexivity.
     + destruct (EE e 6 arg) as [H|H]; [exact H|discriminate].
     + exfalso. apply Hnp. reflexivity.
   - (* 2 *) destruct (SB k Hnp) as [[Hn ->]|[e ->]]; [|destruct (EE e 2 arg) as [H|H]; [exact H|discriminate]].
-    rewrite Hn. cbn [req_opt ctor_obs_ok owned_exact]. rewrite !N.eqb_refl. reflexivity.
+    rewrite Hn. cbn [req_opt ctor_obs_ok]. unfold owned_exact. rewrite !N.eqb_refl. reflexivity.
   - (* 4 *) destruct (S01 _ Hnp) as [(n & Hn & L & -> & Hv & Hr)|(e & He & ->)].
     + rewrite Hn. cbn [req_opt fst]. rewrite Hv. destruct (arg <? n) eqn:C.
       * cbn [ctor_obs_ok]. exact C.
@@ -198,11 +208,11 @@ Proof.
         replace (n + (arg - n) =? arg) with true by (symmetry; apply N.eqb_eq; lia). reflexivity.
     + rewrite He. destruct e; reflexivity.
   - (* 1 *) destruct (S01 _ Hnp) as [(n & Hn & L & -> & Hv & Hr)|(e & He & ->)].
-    + rewrite Hn. cbn [req_opt fst snd ctor_obs_ok slice_cut_exact]. rewrite Hv, Hr, !N.eqb_refl. cbn [andb].
+    + rewrite Hn. cbn [req_opt fst snd ctor_obs_ok]. unfold slice_cut_exact. rewrite Hv, Hr, !N.eqb_refl. cbn [andb].
       apply N.eqb_eq. lia.
     + destruct (EE e 1 arg) as [H|H]; [exact H|discriminate].
   - (* 0 *) destruct (S01 _ Hnp) as [(n & Hn & L & -> & Hv & Hr)|(e & He & ->)].
-    + rewrite Hn. cbn [req_opt fst snd ctor_obs_ok slice_cut_exact]. rewrite Hv, Hr, !N.eqb_refl. cbn [andb].
+    + rewrite Hn. cbn [req_opt fst snd ctor_obs_ok]. unfold slice_cut_exact. rewrite Hv, Hr, !N.eqb_refl. cbn [andb].
       apply N.eqb_eq. lia.
     + destruct (EE e 0 arg) as [H|H]; [exact H|discriminate].
 Qed.
@@ -215,12 +225,12 @@ Proof.
   { intros f Hfx. destruct (try_from_slice k b) as [x|e|s]; cbn [enc_ctor]; [apply Hfx|destruct e; cbn; discriminate|discriminate P1]. }
   assert (B : fst (enc_ctor (try_from_boxed k b) owned_lens) <> 99).
   { destruct (try_from_boxed k b) as [x|e|s]; cbn [enc_ctor]; [cbn; discriminate|destruct e; cbn; discriminate|discriminate P2]. }
-  unfold run_ctor.
-  destruct fam as [|p]; [apply A; intros; cbn; discriminate|].
-  destruct p as [p|p|]; [destruct p as [p|p|]|destruct p as [p|p|]|]; try (exfalso; lia).
-  - destruct p; try (exfalso; lia). exact B.
+  assert (Hc : fam = 0 \/ fam = 1 \/ fam = 2 \/ fam = 3 \/ fam = 4 \/ fam = 7) by lia.
+  destruct Hc as [->|[->|[->|[->|[->| ->]]]]]; unfold run_ctor; cbv beta iota.
   - apply A. intros; cbn; discriminate.
-  - destruct p; try (exfalso; lia). apply A. intros x. destruct (arg <? blen (fst x)); cbn; discriminate.
+  - apply A. intros; cbn; discriminate.
   - exact B.
   - apply A. intros; cbn; discriminate.
+  - apply A. intros x. destruct (arg <? blen (fst x)); cbn; discriminate.
+  - exact B.
 Qed.
